@@ -13,7 +13,9 @@
      fgoto L                          forward goto: NewLabel + Goto now, Label later in an enclosing block
      label L                          NewLabel + Label (attaches to the next statement,
                                       or to an empty statement at the end of the block)
-     open(k)  k in if, for, forcond, range, block, switch, tswitch, select, closure
+     open(k)  k in if, for, forcond, range, erange, block, switch, tswitch, select, closure
+              (erange: a range loop over a user-defined enumerator - for the Go rules it is a range loop like any other,
+               whatever loop the builder lowers it to)
      else, clause(default?), fallthrough, end
 
    The Go specification's "Terminating statements" section is transcribed as the
@@ -46,7 +48,7 @@ HasBreak(s, label, implicit) ==
     [] s.k = "block" -> HasBreakList(s.items, label, implicit)
     [] s.k = "if" -> HasBreakList(s.items, label, implicit) \/ HasBreakList(s.els, label, implicit)
     [] s.k \in {"switch", "tswitch", "select"} -> label # "" /\ \E i \in 1..Len(s.cl) : HasBreakList(s.cl[i].items, label, FALSE)
-    [] s.k \in {"for", "forcond", "range"} -> label # "" /\ HasBreakList(s.items, label, FALSE)
+    [] s.k \in {"for", "forcond", "range", "erange"} -> label # "" /\ HasBreakList(s.items, label, FALSE)
     [] s.k = "labeled" -> HasBreak(s.stmt, label, implicit)
     [] OTHER -> FALSE
 Term(s, label) ==
@@ -69,13 +71,13 @@ Init == /\ open = <<[k |-> "func", items |-> <<>>, cl |-> <<>>, x |-> "", id |->
 Log(op, a) == hist' = Append(hist, <<op, a>>) /\ nops' = nops + 1
 Wrap(s) == IF pend = "" THEN s ELSE [k |-> "labeled", lab |-> pend, stmt |-> s]
 Emit(s) == /\ open' = [open EXCEPT ![Len(open)].items = Append(@, Wrap(s))] /\ pend' = ""
-InBody == Top.k \in {"func", "closure", "block", "ifb", "elseb", "for", "forcond", "range", "case", "tcase", "comm"}
+InBody == Top.k \in {"func", "closure", "block", "ifb", "elseb", "for", "forcond", "range", "erange", "case", "tcase", "comm"}
 Room == /\ Len(Top.items) < MaxItems
         /\ ~(Len(Top.items) > 0 /\ Top.items[Len(Top.items)].k = "fallthrough")      \* fallthrough ends its clause
 \* the frames of the innermost function (jumps never cross a closure boundary)
 FnBase == LET idx == {i \in 1..Len(open) : open[i].k \in {"func", "closure"}} IN CHOOSE i \in idx : \A j \in idx : j <= i
 Mine == FnBase..Len(open)
-Loops == {"for", "forcond", "range"}
+Loops == {"for", "forcond", "range", "erange"}
 Breakables == Loops \cup {"switch", "tswitch", "select"}
 InLoop == \E i \in Mine : open[i].k \in Loops
 InBreakable == \E i \in Mine : open[i].k \in Breakables
@@ -87,7 +89,8 @@ Path == [i \in 1..(Len(open) - FnBase + 1) |-> open[FnBase + i - 1].id]
 IsPrefixOf(p, q) == Len(p) <= Len(q) /\ \A i \in 1..Len(p) : p[i] = q[i]
 
 \* declarations get a fresh name from the operation count (the harness appends it)
-SimpleStmt(k) == /\ k \in Simple /\ InBody /\ Room /\ Emit(Leaf(k, "")) /\ UNCHANGED <<lbl, nid>> /\ Keep
+SimpleStmt(k) == /\ k \in Simple /\ InBody /\ Room /\ Emit(Leaf(k, ""))
+                 /\ UNCHANGED <<lbl, nid>> /\ Keep
                  /\ Log(k, IF k \in {"define", "var"} THEN ToString(nops) ELSE "")
 Break(l) == /\ "break" \in Jumps /\ InBody /\ Room
             /\ (IF l = "" THEN InBreakable ELSE EnclosingLabel(l, Breakables))
@@ -165,7 +168,7 @@ Next == /\ nops < MaxOps
            \/ \E l \in Labels \cup {""} : Break(l) \/ Continue(l)
            \/ \E l \in Labels : Goto(l) \/ Label(l) \/ FGoto(l)
            \/ Fallthrough \/ Else \/ Close \/ OpenClosure
-           \/ \E k \in {"ifb", "for", "forcond", "range", "block", "switch", "tswitch", "select"} : Open(k)
+           \/ \E k \in {"ifb", "for", "forcond", "range", "erange", "block", "switch", "tswitch", "select"} : Open(k)
            \/ \E d \in BOOLEAN : Clause(d)
 Spec == Init /\ [][Next]_vars
 
@@ -175,7 +178,7 @@ BodyList == Trail(open[1])
 RECURSIVE NoFinalFallthroughList(_), NoFinalFallthrough(_)
 NoFinalFallthrough(s) ==
   CASE s.k = "labeled" -> NoFinalFallthrough(s.stmt)
-    [] s.k \in {"block", "for", "forcond", "range"} -> NoFinalFallthroughList(s.items)
+    [] s.k \in {"block", "for", "forcond", "range", "erange"} -> NoFinalFallthroughList(s.items)
     [] s.k = "if" -> NoFinalFallthroughList(s.items) /\ NoFinalFallthroughList(s.els)
     [] s.k \in {"switch", "tswitch", "select"} ->
          /\ \A i \in 1..Len(s.cl) : NoFinalFallthroughList(s.cl[i].items)
